@@ -20,11 +20,12 @@ def tfield(base, idx):
 
 def verify_before_release(ctx):
     P = ctx.prog
-    det = ctx.anchor(CORE + "detect_cheater")
     agg = ctx.anchor(CORE + "aggregate_custom")
+    region = blame_region(P, agg) if agg else None
+    det = region[0] if region and region[2] is not None else None      # the private helper holding the scan, if there is one
     if det:
         ctx.check(only_err(det), "ONLYERR", det.key, "never-Ok",
-                  "detect_cheater has a path that returns Ok: aggregation could release an unverified signature",
+                  "the blame helper %s has a path that returns Ok: aggregation could release an unverified signature" % short(det.key),
                   det.loc)
     if agg:
         v = FnView.get(P, agg)
@@ -46,29 +47,45 @@ def verify_before_release(ctx):
 
         mechs = [("group-key-verify", succ_fact(is_verify))]
         if det and only_err(det):
-            mechs.append(("detect_cheater-never-Ok", succ_fact(call("detect_cheater"))))
+            mechs.append(("blame-helper-never-Ok", succ_fact(lambda t: is_call(t) and t[1] == det.key)))
         refusal(ctx, agg, "SEP", "G05:verify-before-release", mechs, ok_sinks(agg), require_fail_err=False)
         ctx.check(len(ret_terms) == 1 and ret_terms[0][0] == "agg" and ret_terms[0][2].endswith("Signature"),
                   "PROV", agg.key, "returned-signature-is-the-verified-aggregate",
                   "aggregate_custom's Ok value is not the locally built Signature aggregate", agg.loc)
         # Disabled: no per-share scan (names nobody): detect_cheater is reachable only through an edge on which the mode is
         # FirstCheater or AllCheaters
-        dc = call_sinks(agg, lambda ci, t: ci and ci.get("name") == "detect_cheater")
+        # (the scan = the blame helper's call site, or — written in place — the share checks themselves)
+        dc = {region[2]} if det else call_sinks(agg, lambda ci, t: ci and ci.get("name") == "verify_signature_share_precomputed")
         non_dis = exclusive(v.facts, lambda fa: "pass" if fa[0] == "variant" and fa[1] == ("arg", 4) and fa[2] == "FirstCheater" else None) | \
             exclusive(v.facts, lambda fa: "pass" if fa[0] == "variant" and fa[1] == ("arg", 4) and fa[2] == "AllCheaters" else None)
         non_dis |= {e for (e, fa) in v.facts if fa[0] == "variant" and fa[1] == ("arg", 4) and fa[2] in ("FirstCheater", "AllCheaters")
                     and not any(e2 == e and f2[0] == "variant" and f2[1] == ("arg", 4) and f2[2] == "Disabled" for (e2, f2) in v.facts)}
         ctx.check(bool(dc) and bool(non_dis) and not sep(agg, non_dis, dc), "PROV", agg.key,
-                  "Disabled:no-blame", "with detection disabled aggregate_custom can still reach detect_cheater",
+                  "Disabled:no-blame", "with detection disabled aggregate_custom can still reach the per-share blame scan",
                   agg.loc)
-        # FirstCheater/AllCheaters: detect_cheater receives the post-hook shares/pubkeys/package and the mode
-        for (bb, t, ci) in v.calls_named("detect_cheater"):
-            a = v.call_args(bb)
-            good = (hooked(arg(3))(a[1]) and a[5] == ("arg", 4) and hooked(arg(2))(a[3]))
-            ctx.check(good, "PROV", agg.key, "detect_cheater-arguments",
-                      "detect_cheater is not called with (post-hook public key package, post-hook shares, the "
-                      "caller's detection mode): got %s" % ", ".join(fmt(x) for x in a), loc_of(agg, bb))
-    return det
+        # (that the scan works on the post-hook shares / keys / package and the caller's mode is part of the scan rules below: they
+        # are stated in aggregate_custom's vocabulary, through the helper's call site)
+    return region
+
+
+def blame_region(P, agg):
+    """where the per-share blame scan lives: (F, V, call block) — the private helper aggregate_custom calls whose body runs
+    verify_signature_share_precomputed (whatever its name and parameter order), seen with that call's arguments, or
+    (aggregate_custom, its view, None) when the scan is written in place; None if there is no scan"""
+    v = FnView.get(P, agg)
+    scans = lambda g: any(ci and ci.get("name") == "verify_signature_share_precomputed" for (_, _, ci) in g.calls())
+    for (bb, t, ci) in agg.calls():
+        H = P.fns.get(ci.get("resolved") or "") or P.fns.get(ci.get("path") or "") if ci else None
+        if H is not None and H.has_body and H.crate.startswith("frost") and H.j.get("vis") != "Public" and not H.j.get("reachable") \
+                and H.key != agg.key and scans(H):
+            hv = FnView(P, H, {i + 1: a for i, a in enumerate(v.call_args(bb))}, ((agg.key, bb),))
+            return H, hv, bb
+    if scans(agg):
+        return agg, v, None
+    return None
+
+
+def run(ctx):    return det
 
 
 def run(ctx):
@@ -82,21 +99,28 @@ def run(ctx):
                      "errors yield a valid signature (algebra, decided only as kernel agreement under C01/C18).")
     ctx.floor = 10
     P = ctx.prog
-    det = verify_before_release(ctx)
+    region = verify_before_release(ctx)
     if not ctx.core_only:
         # blame under re-randomization: the package handed to the core aggregation shifts every verifying share
         from .c17 import randomized_public_package
         randomized_public_package(ctx)
-    if det:
-        v = FnView.get(P, det)
-        item = next_item(arg(4))
+    if not region:
+        ctx.violation("PROV", CORE + "aggregate_custom", "scan-over-all-shares-in-order",
+                      "no per-share blame scan (verify_signature_share_precomputed over the submitted shares) was found in "
+                      "aggregate_custom or in a private helper it calls", None)
+    if region:
+        det, v, _bb = region
+        # everything below is stated in aggregate_custom's vocabulary: post-hook package / shares / keys, the caller's mode
+        shares_, keys_, pkg_, MODE = hooked(arg(2)), hooked(arg(3)), hooked(arg(1)), ("arg", 4)
+        item = next_item(shares_)
         ident = tfield(item, 0)
         share = tfield(item, 1)
-        vshare = some(call("get", fld(arg(2), "verifying_shares"), ident))
+        vshare = some(call("get", fld(keys_, "verifying_shares"), ident))
 
         def vssp(t):
-            return (is_call(t, name="verify_signature_share_precomputed") and ident(t[2][0]) and t[2][1] == ("arg", 3)
+            return (is_call(t, name="verify_signature_share_precomputed") and ident(t[2][0]) and pkg_(t[2][1])
                     and share(t[2][4]) and vshare(t[2][5]))
+        scan_loop = lambda lp: lp["iter_term"] is not None and shares_(strip_iter_calls(lp["iter_term"]))
         # culprits only from the failing share's own error
         ext = [(bb, t) for (bb, t, ci) in det.calls() if ci and ci.get("name") in ("extend", "push", "append",
                                                                                  "extend_from_slice", "insert")]
@@ -120,22 +144,24 @@ def run(ctx):
                   "detect_cheater must return InvalidSignatureShare{collected culprits} or, if none was found, "
                   "InvalidSignature", det.loc)
         # scan shape: whole ordered map, stop early only for FirstCheater, collect only on a failed share check
-        lr = reductions(ctx, det.key, adaptors={},
-                        skip={"all_culprits": lambda f: ("pass" if f[2] else None)
-                              if f[0] == "succ" and vssp(f[1]) else None},
-                        brk=[lambda f: "pass" if f[0] == "variant" and f[1] == ("arg", 6) and f[2] == "FirstCheater"
-                             else None], min_loops=1)
+        culprit_locals = {l for lp in loop_report(P, det, v) if scan_loop(lp) for l in lp["acc"]}
+        failed = lambda f: ("pass" if f[2] else None) if f[0] == "succ" and vssp(f[1]) else None
+        lr = reductions(ctx, det.key, adaptors=({} if det.key != CORE + "aggregate_custom" else {}),
+                        skip={l: failed for l in culprit_locals}, labels={l: "culprits" for l in culprit_locals},
+                        brk=[lambda f: "pass" if f[0] == "variant" and f[1] == MODE and f[2] == "FirstCheater"
+                             else None], min_loops=1, fn=det, view=v, only_loops=scan_loop,
+                        rule="RED" if det.key != CORE + "aggregate_custom" else "RED-scan")
         if not lr:
             ctx.violation("PROV", det.key, "scan-over-all-shares-in-order",
                           "the blame scan is not written as a loop over the signature-share map: its order, early stop and coverage "
                           "cannot be decided (fails closed)", det.loc)
         if lr:
             lp = lr[0]
-            ctx.check(strip_iter_calls(lp["iter_term"]) == ("arg", 4), "PROV", det.key, "scan-over-all-shares-in-order",
+            ctx.check(shares_(strip_iter_calls(lp["iter_term"])), "PROV", det.key, "scan-over-all-shares-in-order",
                       "the blame scan does not iterate the signature-share map itself (ascending identifiers): %s"
                       % fmt(lp["iter_term"]), det.loc)
             # FirstCheater must stop: from the FirstCheater edge the loop header is not re-entered
-            fc = [e for e in exclusive(v.facts, lambda fact: "pass" if fact[0] == "variant" and fact[1] == ("arg", 6)
+            fc = [e for e in exclusive(v.facts, lambda fact: "pass" if fact[0] == "variant" and fact[1] == MODE
                                        and fact[2] == "FirstCheater" else None) if e[0] in lp["body"]]
             good = bool(fc)
             for e in fc:
@@ -145,7 +171,7 @@ def run(ctx):
                       "under FirstCheater the scan continues after the first culprit (it would name later "
                       "cheaters too)", det.loc)
             # AllCheaters / others must not stop
-            oth = [e for (e, fact) in v.facts if fact[0] == "variant" and fact[1] == ("arg", 6)
+            oth = [e for (e, fact) in v.facts if fact[0] == "variant" and fact[1] == MODE
                    and fact[2] == "AllCheaters" and e[0] in lp["body"]]
             good = bool(oth)
             for e in oth:
